@@ -212,6 +212,67 @@ impl AV {
     #[verifier::external_body] pub fn finish_annotation(this: AVRes, named_element_values_visitor: NV) -> (res: Result<AV, VErr>)
         ensures res matches Ok(r) ==> r.log@ == this.log@.push((this.ty@, named_element_values_visitor.log@)) { unimplemented!() }
 }
+// ---- JVMS 4.7.20 type_annotation: target_type + target_info, type_path, then an annotation (type_index, pairs) ----
+// TRUSTED: TypePath / TargetInfoCode / Labels are opaque here; read_type_path and read_type_reference_code carry the contracts unit rtypes proves for them, through the opaque relations path_is / path_size / tgt_code_is / tgt_code_size (tgt_code_is only looks labels up, so it is stable under labels_kept: rtypes lemma_tt_code_is_stable)
+#[verifier::external_body] pub struct TypePath { _p: () }
+#[verifier::external_body] pub struct TargetInfoCode { _p: () }
+#[verifier::external_body] pub struct Labels { _p: () }
+pub uninterp spec fn path_is(d: Seq<u8>, p: int, v: TypePath) -> bool;
+pub uninterp spec fn path_size(d: Seq<u8>, p: int) -> int;
+pub uninterp spec fn tgt_code_is(d: Seq<u8>, p: int, l: Labels, v: TargetInfoCode) -> bool;
+pub uninterp spec fn tgt_code_size(d: Seq<u8>, p: int) -> int;
+pub uninterp spec fn labels_kept(a: Labels, b: Labels) -> bool;
+#[verifier::external_body] pub proof fn axiom_labels_kept(a: Labels, b: Labels, c: Labels)
+    ensures labels_kept(a, a), labels_kept(a, b) && labels_kept(b, c) ==> labels_kept(a, c) { }
+#[verifier::external_body] pub proof fn axiom_tgt_code_stable(d: Seq<u8>, p: int, a: Labels, b: Labels, v: TargetInfoCode)
+    ensures labels_kept(a, b) && tgt_code_is(d, p, a, v) ==> tgt_code_is(d, p, b, v) { }
+#[verifier::external_body]
+pub fn read_type_path<Rd: ClassRead>(reader: &mut Rd) -> (res: Result<TypePath, VErr>)
+    ensures final(reader).data() == old(reader).data(),
+        res matches Ok(v) ==> path_is(old(reader).data(), old(reader).pos(), v) && path_size(old(reader).data(), old(reader).pos()) >= 1 && final(reader).pos() == old(reader).pos() + path_size(old(reader).data(), old(reader).pos())
+{ unimplemented!() }
+#[verifier::external_body]
+pub fn read_type_reference_code<Rd: ClassRead>(reader: &mut Rd, labels: &mut Labels) -> (res: Result<TargetInfoCode, VErr>)
+    ensures final(reader).data() == old(reader).data(), labels_kept(*old(labels), *final(labels)),
+        res matches Ok(v) ==> tgt_code_is(old(reader).data(), old(reader).pos(), *final(labels), v) && tgt_code_size(old(reader).data(), old(reader).pos()) >= 1 && final(reader).pos() == old(reader).pos() + tgt_code_size(old(reader).data(), old(reader).pos())
+{ unimplemented!() }
+// targets outside Code: the real trait TargetInfoRead with the same kind of contract
+pub trait TargetInfoRead: Sized {
+    spec fn tgt_is(d: Seq<u8>, p: int, v: Self) -> bool;
+    spec fn tgt_size(d: Seq<u8>, p: int) -> int;
+    fn read_type_reference<Rd: ClassRead>(reader: &mut Rd) -> (res: Result<Self, VErr>)
+        ensures final(reader).data() == old(reader).data(),
+            res matches Ok(v) ==> Self::tgt_is(old(reader).data(), old(reader).pos(), v) && Self::tgt_size(old(reader).data(), old(reader).pos()) >= 1 && final(reader).pos() == old(reader).pos() + Self::tgt_size(old(reader).data(), old(reader).pos());
+}
+pub type TAnnots<T> = Seq<(T, TypePath, FieldDescriptor, Pairs)>;
+pub struct TV<T> { pub log: Ghost<TAnnots<T>> }
+pub struct TVRes<T> { pub log: Ghost<TAnnots<T>>, pub target: Ghost<T>, pub path: Ghost<TypePath>, pub ty: Ghost<FieldDescriptor> }
+impl<T> TV<T> {
+    #[verifier::external_body] pub fn visit_type_annotation(self, type_reference: T, type_path: TypePath, annotation_descriptor: FieldDescriptor) -> (res: Result<(TVRes<T>, NV), VErr>)
+        ensures res matches Ok(p) ==> p.0.log@ == self.log@ && p.0.target@ == type_reference && p.0.path@ == type_path && p.0.ty@ == annotation_descriptor && p.1.log@ == Seq::<(JavaString, EvV)>::empty() { unimplemented!() }
+    #[verifier::external_body] pub fn finish_type_annotation(this: TVRes<T>, named_element_values_visitor: NV) -> (res: Result<TV<T>, VErr>)
+        ensures res matches Ok(r) ==> r.log@ == this.log@.push((this.target@, this.path@, this.ty@, named_element_values_visitor.log@)) { unimplemented!() }
+}
+// offsets of entry k: target at `off`, path after it, annotation after the path
+pub open spec fn ta_size_at<T: TargetInfoRead>(d: Seq<u8>, off: int, x: (T, TypePath, FieldDescriptor, Pairs)) -> int {
+    T::tgt_size(d, off) + path_size(d, off + T::tgt_size(d, off)) + 4 + pairs_size_to(x.3, x.3.len() as int)
+}
+pub open spec fn tas_size_to<T: TargetInfoRead>(d: Seq<u8>, q: int, xs: TAnnots<T>, k: int) -> int decreases k {
+    if 0 < k <= xs.len() { tas_size_to(d, q, xs, k - 1) + ta_size_at(d, q + tas_size_to(d, q, xs, k - 1), xs[k - 1]) } else { 0 }
+}
+pub open spec fn tas_are_to<T: TargetInfoRead>(d: Seq<u8>, q: int, pool: PoolRead, xs: TAnnots<T>, k: int) -> bool decreases k {
+    if 0 < k <= xs.len() {
+        let off = q + tas_size_to(d, q, xs, k - 1);
+        let a = off + T::tgt_size(d, off) + path_size(d, off + T::tgt_size(d, off));
+        tas_are_to(d, q, pool, xs, k - 1) && T::tgt_is(d, off, xs[k - 1].0) && path_is(d, off + T::tgt_size(d, off), xs[k - 1].1)
+        && desc_at(d, a, pool, xs[k - 1].2) && u16_at(d, a + 2) == xs[k - 1].3.len() && pairs_are_to(d, a + 4, pool, xs[k - 1].3, xs[k - 1].3.len() as int)
+    } else { true }
+}
+pub proof fn lemma_tas_prefix<T: TargetInfoRead>(d: Seq<u8>, q: int, pool: PoolRead, a: TAnnots<T>, b: TAnnots<T>, k: int)
+    requires 0 <= k <= a.len(), k <= b.len(), forall|j: int| 0 <= j < k ==> a[j] == b[j],
+    ensures tas_size_to(d, q, a, k) == tas_size_to(d, q, b, k), tas_are_to(d, q, pool, a, k) == tas_are_to(d, q, pool, b, k),
+    decreases k,
+{ if k > 0 { lemma_tas_prefix(d, q, pool, a, b, k - 1); } }
 // the suffix a visitor received during a call
 pub open spec fn grew_by<A>(before: Seq<A>, after: Seq<A>) -> Seq<A> { after.subrange(before.len() as int, after.len() as int) }
 pub open spec fn extends<A>(before: Seq<A>, after: Seq<A>) -> bool { before.len() <= after.len() && after.subrange(0, before.len() as int) =~= before }
@@ -307,4 +368,28 @@ def build(u):
              C('C01.annot.attribute.visitor-receives-exactly-the-encoded-annotations-in-order',
                f'res matches Ok(o) ==> extends({V0}, o.log@) && {NEWA}.len() == u16_at({D0}, {P0}) && annots_are_to({D0}, {P0} + 2, *pool, {NEWA}, {NEWA}.len() as int)'),
              C('C01.annot.attribute.consumes-exactly-the-encoded-annotations', f'res matches Ok(o) ==> final(reader).pos() == {P0} + 2 + annots_size_to({NEWA}, {NEWA}.len() as int)'),
+         ])
+
+    # ---------------------------------------------------------------- RuntimeVisible/InvisibleTypeAnnotations body (class / field / method level)
+    V0 = 'type_annotations_visitor.log@'
+    NEWT = f'grew_by({V0}, o.log@)'
+    curt = 'grew_by(log0, type_annotations_visitor.log@)'
+    inv_t = (f'reader.data() == {D0} && 0 <= {P0} && num_annotations as int == u16_at({D0}, {P0}) && extends(log0, type_annotations_visitor.log@) && {curt}.len() == iter.index@ '
+             f'&& tas_are_to::<T>({D0}, {P0} + 2, *pool, {curt}, iter.index@ as int) && reader.pos() == {P0} + 2 + tas_size_to::<T>({D0}, {P0} + 2, {curt}, iter.index@ as int) && reader.pos() <= {D0}.len() && reader.pos() >= {P0} + 2')
+    step_t = (f'proof {{ let a = grew_by(log0, lg); let b = {curt}; let k = iter.index@ as int; assert(b =~= a.push(b[k])); lemma_tas_prefix::<T>({D0}, {P0} + 2, *pool, a, b, k); '
+              f'lemma_pairs_size_nonneg(b[k].3, b[k].3.len() as int); assert(grew_by(Seq::<(JavaString, EvV)>::empty(), b[k].3) =~= b[k].3); assert(tas_are_to::<T>({D0}, {P0} + 2, *pool, b, k + 1)); }}')
+    u.fn(R, 'read_type_annotations_attribute', ret='res',
+         sig_rewrites=[(r'fn read_type_annotations_attribute<A: TypeAnnotationsVisitor<T>, T: TargetInfoRead>\(', 'fn read_type_annotations_attribute<Rd: ClassRead, T: TargetInfoRead>('),
+                       (r'reader: &mut impl ClassRead', 'reader: &mut Rd'), (r'mut type_annotations_visitor: A,', 'mut type_annotations_visitor: TV<T>,'), (r'-> Result<A', '-> Result<TV<T>')],
+         rewrites=[(r'for _ in 0\.\.num_annotations', 'for _i in iter: 0..num_annotations'), (r'\bTargetInfoRead::read_type_reference\(reader\)', 'T::read_type_reference(reader)'),
+                   (r'\bTypeAnnotationsVisitor::finish_type_annotation', 'TV::finish_type_annotation')],
+         requires=[f'0 <= {P0}'],
+         head_proof='let ghost log0 = type_annotations_visitor.log@;',
+         loops={0: dict(invariant=[C(f'C01.annot.type-attribute.inv.{i}', t) for i, t in enumerate(inv_t.split(' && '))],
+                        body_start='let ghost lg = type_annotations_visitor.log@;', body_end=step_t)},
+         ensures=[
+             C('C01.annot.type-attribute.frame', KEEP),
+             C('C01.annot.type-attribute.visitor-receives-target-path-type-and-pairs-of-every-encoded-type-annotation-in-order',
+               f'res matches Ok(o) ==> extends({V0}, o.log@) && {NEWT}.len() == u16_at({D0}, {P0}) && tas_are_to::<T>({D0}, {P0} + 2, *pool, {NEWT}, {NEWT}.len() as int)'),
+             C('C01.annot.type-attribute.consumes-exactly-the-encoded-type-annotations', f'res matches Ok(o) ==> final(reader).pos() == {P0} + 2 + tas_size_to::<T>({D0}, {P0} + 2, {NEWT}, {NEWT}.len() as int)'),
          ])
